@@ -211,3 +211,217 @@ theorem deleteAll_inline (e : Bytes × List Part) (root : Node) (rc : List (Nat 
     simp only at hres
     subst hres
     simp only [hc, deleteAll, and_self]
+
+/-! ### cells that may be shared by *some* of the routes of a template (clones: one cell per route) -/
+
+/-- the cell of the value stored under a key -/
+def cellAt (root : Node) (P : List Part) : Option Nat := (Node.find root P).bind (·.cell)
+
+/-- the number of different part lists among `ts`, not in `seen`, whose stored value holds cell `k` -/
+def cellKeys (root : Node) (k : Nat) : List (List Part) → List (Bytes × List Part) → Nat
+  | _, [] => 0
+  | seen, e :: rest =>
+    if e.2 ∈ seen then cellKeys root k seen rest
+    else cellKeys root k (e.2 :: seen) rest + (if cellAt root e.2 = some k then 1 else 0)
+
+theorem cellKeys_le (root : Node) (k : Nat) : ∀ (ts : List (Bytes × List Part)) (seen : List (List Part)),
+    cellKeys root k seen ts ≤ newKeys seen ts
+  | [], _ => Nat.le_refl _
+  | e :: rest, seen => by
+    simp only [cellKeys, newKeys]
+    split
+    · exact cellKeys_le root k rest seen
+    · have := cellKeys_le root k rest (e.2 :: seen)
+      split <;> omega
+
+theorem cellKeys_congr (root root' : Node) (k : Nat) : ∀ (ts : List (Bytes × List Part)) (seen : List (List Part)),
+    (∀ e ∈ ts, e.2 ∉ seen → cellAt root e.2 = cellAt root' e.2) → cellKeys root k seen ts = cellKeys root' k seen ts
+  | [], _, _ => rfl
+  | e :: rest, seen, h => by
+    simp only [cellKeys]
+    split
+    · exact cellKeys_congr root root' k rest seen (fun y hy => h y (by simp [hy]))
+    · rename_i hs
+      rw [h e (by simp) hs, cellKeys_congr root root' k rest (e.2 :: seen) (fun y hy hys => h y (by simp [hy]) (by
+        intro hc; exact hys (by simp [hc])))]
+
+theorem cellKeys_all (root : Node) (k : Nat) : ∀ (ts : List (Bytes × List Part)) (seen : List (List Part)),
+    (∀ e ∈ ts, e.2 ∉ seen → cellAt root e.2 = some k) → cellKeys root k seen ts = newKeys seen ts
+  | [], _, _ => rfl
+  | e :: rest, seen, h => by
+    simp only [cellKeys, newKeys]
+    split
+    · exact cellKeys_all root k rest seen (fun y hy => h y (by simp [hy]))
+    · rename_i hs
+      rw [h e (by simp) hs, cellKeys_all root k rest (e.2 :: seen) (fun y hy hys => h y (by simp [hy]) (by
+        intro hc; exact hys (by simp [hc])))]
+      simp
+
+theorem cellKeys_zero (root : Node) (k : Nat) : ∀ (ts : List (Bytes × List Part)) (seen : List (List Part)),
+    (∀ e ∈ ts, e.2 ∉ seen → cellAt root e.2 ≠ some k) → cellKeys root k seen ts = 0
+  | [], _, _ => rfl
+  | e :: rest, seen, h => by
+    simp only [cellKeys]
+    split
+    · exact cellKeys_zero root k rest seen (fun y hy => h y (by simp [hy]))
+    · rename_i hs
+      rw [if_neg (h e (by simp) hs), cellKeys_zero root k rest (e.2 :: seen) (fun y hy hys => h y (by simp [hy]) (by
+        intro hc; exact hys (by simp [hc])))]
+
+theorem cellKeys_pos (root : Node) (k : Nat) : ∀ (ts : List (Bytes × List Part)) (seen : List (List Part)) (e : Bytes × List Part),
+    e ∈ ts → e.2 ∉ seen → cellAt root e.2 = some k → cellKeys root k seen ts > 0
+  | [], _, _, h, _, _ => by cases h
+  | x :: rest, seen, e, he, hs, hc => by
+    simp only [cellKeys]
+    split
+    · rename_i hx
+      rcases List.mem_cons.1 he with rfl | he'
+      · exact absurd hx hs
+      · exact cellKeys_pos root k rest seen e he' hs hc
+    · rename_i hx
+      rcases List.mem_cons.1 he with rfl | he'
+      · rw [if_pos hc]; omega
+      · by_cases hex : e.2 = x.2
+        · rw [← hex, if_pos hc]; omega
+        · have := cellKeys_pos root k rest (x.2 :: seen) e he' (by
+            intro hm; rcases List.mem_cons.1 hm with h | h
+            · exact hex h
+            · exact hs h) hc
+          omega
+
+/-- if only one key can hold cell `k`, at most one does -/
+theorem cellKeys_le_one (root : Node) (k : Nat) (P0 : List Part) : ∀ (ts : List (Bytes × List Part)) (seen : List (List Part)),
+    (∀ e ∈ ts, e.2 ∉ seen → cellAt root e.2 = some k → e.2 = P0) → cellKeys root k seen ts ≤ 1
+  | [], _, _ => by simp [cellKeys]
+  | e :: rest, seen, h => by
+    simp only [cellKeys]
+    split
+    · exact cellKeys_le_one root k P0 rest seen (fun y hy => h y (by simp [hy]))
+    · rename_i hs
+      by_cases hc : cellAt root e.2 = some k
+      · have he0 := h e (by simp) hs hc
+        rw [if_pos hc, cellKeys_zero root k rest (e.2 :: seen) (by
+          intro y hy hys hcy
+          have := h y (by simp [hy]) (by intro hm; exact hys (by simp [hm])) hcy
+          exact hys (by simp [this, he0]))]
+        omega
+      · rw [if_neg hc]
+        have := cellKeys_le_one root k P0 rest (e.2 :: seen) (fun y hy hys => h y (by simp [hy]) (by
+          intro hm; exact hys (by simp [hm])))
+        omega
+
+theorem cellAt_of_find {root : Node} {P : List Part} {i : Info} (h : Node.find root P = some i) : cellAt root P = i.cell := by
+  simp [cellAt, h]
+
+/-- deleting all expansions of a template whose stored values hold cells with exact counts (`rcGet rc k` = number of
+the template's routes still present whose value holds `k`): the last route hands the data back -/
+theorem deleteAll_cells (d : Nat) : ∀ (ts : List (Bytes × List Part)) (root : Node) (rc : List (Nat × Nat)) (out : Option Nat)
+    (gone : List (List Part)),
+    Node.Shp root → (∀ e ∈ ts, wfParts e.2 = true) →
+    (∀ e ∈ ts, e.2 ∈ gone → Node.find root e.2 = none) →
+    (∀ e ∈ ts, e.2 ∉ gone → ∃ i k, Node.find root e.2 = some i ∧ i.cell = some k ∧ i.data = d ∧
+      rcGet rc k = cellKeys root k gone ts) →
+    (newKeys gone ts > 0 → (deleteAll ts root rc out).2.2 = some d) ∧
+    (newKeys gone ts = 0 → (deleteAll ts root rc out).2.2 = out) ∧
+    ∀ k', (∀ e ∈ ts, e.2 ∉ gone → cellAt root e.2 ≠ some k') → rcGet (deleteAll ts root rc out).2.1 k' = rcGet rc k'
+  | [], _, _, _, _, _, _, _, _ => by
+    simp only [deleteAll, newKeys]
+    exact ⟨fun h => absurd h (by omega), fun _ => trivial, fun _ _ => trivial⟩
+  | e :: rest, root, rc, out, gone, hS, hwf, hgone, hpres => by
+    obtain ⟨raw, parts⟩ := e
+    have hwe : wfParts parts = true := hwf (raw, parts) (by simp)
+    have hdel := Node.find_delete root false parts
+    have hS' : Node.Shp (Node.delete false root parts).1 := Node.delete_Shp root false parts hS hwe
+    have hfd : ∀ y ∈ rest, Node.find (Node.delete false root parts).1 y.2 = if y.2 = parts then none else Node.find root y.2 :=
+      fun y hy => (hdel y.2 hS hwe (hwf y (by simp [hy]))).1
+    have hres : (Node.delete false root parts).2 = Node.find root parts := (hdel parts hS hwe hwe).2
+    simp only [deleteAll]
+    by_cases hg : parts ∈ gone
+    · have hnone : Node.find root parts = none := hgone (raw, parts) (by simp) hg
+      rw [hnone] at hres
+      cases hd' : Node.delete false root parts with
+      | mk root' res =>
+        rw [hd'] at hres hS' hfd
+        simp only at hres hS' hfd
+        subst hres
+        have hca : ∀ y ∈ rest, y.2 ∉ gone → cellAt root y.2 = cellAt root' y.2 := by
+          intro y hy hyg
+          have : y.2 ≠ parts := fun h => hyg (h ▸ hg)
+          simp only [cellAt, hfd y hy, if_neg this]
+        simp only [newKeys, hg, ite_true]
+        have ih := deleteAll_cells d rest root' rc out gone hS' (fun y hy => hwf y (by simp [hy]))
+          (by
+            intro y hy hyg
+            rw [hfd y hy]
+            split
+            · rfl
+            · exact hgone y (by simp [hy]) hyg)
+          (by
+            intro y hy hyg
+            obtain ⟨i, k, hf, hc, hdi, hrc⟩ := hpres y (by simp [hy]) hyg
+            have : y.2 ≠ parts := fun h => hyg (h ▸ hg)
+            refine ⟨i, k, by rw [hfd y hy, if_neg this]; exact hf, hc, hdi, ?_⟩
+            rw [hrc]
+            simp only [cellKeys, hg, ite_true]
+            exact cellKeys_congr root root' k rest gone hca)
+        refine ⟨ih.1, ih.2.1, ?_⟩
+        intro k' hk'
+        apply ih.2.2 k'
+        intro y hy hyg
+        rw [← hca y hy hyg]
+        exact hk' y (by simp [hy]) hyg
+    · obtain ⟨i, k, hfi, hci, hdi, hrck⟩ := hpres (raw, parts) (by simp) hg
+      rw [hfi] at hres
+      cases hd' : Node.delete false root parts with
+      | mk root' res =>
+        rw [hd'] at hres hS' hfd
+        simp only at hres hS' hfd
+        subst hres
+        have hcp : cellAt root parts = some k := by rw [cellAt_of_find hfi, hci]
+        have hca : ∀ y ∈ rest, y.2 ∉ parts :: gone → cellAt root y.2 = cellAt root' y.2 := by
+          intro y hy hyg
+          have : y.2 ≠ parts := fun h => hyg (by simp [h])
+          simp only [cellAt, hfd y hy, if_neg this]
+        simp only [hci, newKeys, hg, ite_false]
+        simp only [cellKeys, hg, ite_false, hcp, ite_true] at hrck
+        have hn : rcGet rc k - 1 = cellKeys root k (parts :: gone) rest := by omega
+        have ih := deleteAll_cells d rest root' (rcSet rc k (rcGet rc k - 1))
+          (if rcGet rc k - 1 = 0 then some i.data else out) (parts :: gone) hS' (fun y hy => hwf y (by simp [hy]))
+          (by
+            intro y hy hyg
+            rw [hfd y hy]
+            split
+            · rfl
+            · rename_i hne
+              rcases List.mem_cons.1 hyg with h | h
+              · exact absurd h hne
+              · exact hgone y (by simp [hy]) h)
+          (by
+            intro y hy hyg
+            have hyg' : y.2 ∉ gone := fun h => hyg (by simp [h])
+            have hne : y.2 ≠ parts := fun h => hyg (by simp [h])
+            obtain ⟨i', k', hf', hc', hdi', hrc'⟩ := hpres y (by simp [hy]) hyg'
+            refine ⟨i', k', by rw [hfd y hy, if_neg hne]; exact hf', hc', hdi', ?_⟩
+            simp only [cellKeys, hg, ite_false, hcp] at hrc'
+            rw [← cellKeys_congr root root' k' rest (parts :: gone) hca]
+            by_cases hkk : k' = k
+            · subst hkk
+              rw [rcGet_rcSet_same]; exact hn
+            · rw [rcGet_rcSet_other _ _ _ _ hkk, hrc']
+              have : (some k = some k') = False := by simp; exact fun h => hkk h.symm
+              simp [this])
+        refine ⟨fun _ => ?_, fun h => absurd h (by omega), ?_⟩
+        · by_cases hz : newKeys (parts :: gone) rest = 0
+          · rw [ih.2.1 hz]
+            have hle := cellKeys_le root k rest (parts :: gone)
+            have : rcGet rc k - 1 = 0 := by omega
+            simp only [this, ite_true, hdi]
+          · exact ih.1 (by omega)
+        · intro k' hk'
+          have hkk : k' ≠ k := by
+            intro h; subst h
+            exact hk' (raw, parts) (by simp) hg hcp
+          rw [ih.2.2 k' (by
+            intro y hy hyg
+            rw [← hca y hy hyg]
+            exact hk' y (by simp [hy]) (fun h => hyg (by simp [h]))), rcGet_rcSet_other _ _ _ _ hkk]
